@@ -61,7 +61,7 @@ def specOf (s : SpSite) : AllowSpec :=
     | .text => .oneOf []
 
 /-- the values the logged name of site `s` permits under the valuation `σ` -/
-def Allowed (s : SpSite) (σ : Val) : List IARF := allowedSet σ (specOf s)
+def Allowed (s : SpSite) (σ : SpVal) : List IARF := allowedSet σ (specOf s)
 
 /-- the translator's classification of the logged string is what the string says -/
 def lnameOk (s : SpSite) : Bool :=
